@@ -117,7 +117,9 @@ let handle (i : string list) (o : string list) =
       let calls = outcomes_of r @ outcomes_of rx @ outcomes_of m @ outcomes_of mx in
       let fu = outcomes_of (get kv "Rf") @ outcomes_of (get kv "Mf") in
       let heap = max (geti kv "Rh") (geti kv "Mh") and us = max (geti kv "Rt") (geti kv "Mt") in
-      let c = { co_calls = calls; co_followup = fu; co_touched = (get kv "touched" = "1");
+      (* U lines: a genuine packet of the follow-up with an impossible block number displaces no data: whatever
+         the call answered, the follow-up (which restarts the object with its first symbol) must be delivered *)
+      let c = { co_calls = calls; co_followup = fu; co_touched = (kind <> "U" && get kv "touched" = "1");
                 co_delivered = (get kv "Rd" = "1" && get kv "Md" = "1");
                 co_heap = nat_n heap; co_n = nat_n (geti kv "n"); co_bytes = nat_n (geti kv "bytes"); co_max_us = nat_n us } in
       if not (p_C04_case c) then begin
